@@ -2,17 +2,28 @@
 
 E1_RESOURCE = {"name": "e1-resource", "engine": "e1", "harness": ["resource.cc"], "repo_src": ["src/threading/rwp/Resource.cpp"]}
 
+E1_POOL = {"name": "e1-pool", "engine": "e1", "harness": ["threadpool.cc"], "repo_src": ["src/threading/ThreadPool.cpp", "src/threading/Thread.cpp", "src/threading/Runnable.cpp"]}
+
+E1_RACE = {"name": "e1-race", "engine": "e1", "harness": ["resource.cc", "threadpool.cc"],
+           "repo_src": ["src/threading/rwp/Resource.cpp", "src/threading/ThreadPool.cpp", "src/threading/Thread.cpp", "src/threading/Runnable.cpp"]}
+
+E1_THREAD = {"name": "e1-thread", "engine": "e1", "harness": ["thread.cc"], "repo_src": ["src/threading/Thread.cpp", "src/threading/Runnable.cpp"]}
+
 MC = "model_checking"
 
 CHECKS = {
     "C01": {"level": MC, "runs": [{"binary": E1_RESOURCE, "flavour": "plain"}, {"binary": E1_RESOURCE, "flavour": "asan", "args": ["--max-bound", "2"], "tiers": ["thorough"]}]},
     "C02": {"level": MC, "runs": [{"binary": E1_RESOURCE, "flavour": "plain"}]},
     "C03": {"level": MC, "runs": [{"binary": E1_RESOURCE, "flavour": "plain"}]},
+    "C07": {"level": MC, "runs": [{"binary": E1_POOL, "flavour": "plain"}, {"binary": E1_POOL, "flavour": "asan", "args": ["--max-bound", "1"]}]},
+    "C08": {"level": MC, "runs": [{"binary": E1_POOL, "flavour": "plain"}]},
+    "C15": {"level": MC, "runs": [{"binary": E1_RACE, "flavour": "tsan"}]},
+    "C20": {"level": MC, "runs": [{"binary": E1_THREAD, "flavour": "plain"}, {"binary": E1_THREAD, "flavour": "asan"}]},
     "C12": {"level": MC, "runs": [{"binary": E1_RESOURCE, "flavour": "plain"}]},
 }
 
 ENGINES = [
-    {"name": "vsched", "path": "engine/vsched.c engine/explore.cc", "serves_properties": ["C01", "C02", "C03", "C12"],
+    {"name": "vsched", "path": "engine/vsched.c engine/explore.cc", "serves_properties": ["C01", "C02", "C03", "C07", "C08", "C11", "C12", "C15", "C20"],
      "kind_free_text": "stateless model checking of the real implementation: cooperative scheduler interposed on pthread mutex/condvar/create/join + clock, depth-first enumeration of every schedule up to a preemption bound, forked workers, replay-confirmed violations"},
 ]
 
@@ -30,6 +41,22 @@ META = {
             "note": _E1_NOTE},
     "C03": {"engine": "vsched", "design_ref": "DESIGN.md §4 C03", "technique": "stateless model checking of the implementation: exhaustive preemption-bounded schedule enumeration, FIFO oracle over the event log",
             "text": "Same programs as C02. Oracle over the totally ordered event log of each schedule: for requests A,B that are not both reads, if A was parked inside lock*() before B was issued then A is granted before B.",
+            "note": _E1_NOTE},
+    "C07": {"engine": "vsched", "design_ref": "DESIGN.md §4 C07", "technique": "stateless model checking of the implementation: exhaustive preemption-bounded schedule enumeration, task life-cycle oracle over the event log",
+            "text": "Every schedule (owner + workers, every notify_one target) with <= c preemptions of owner scripts over start/clear/stop/wait with 1-4 instrumented tasks and 1-3 workers runs on the real ThreadPool, plain and under AddressSanitizer. "
+                    "Per task: run at most once, destroyed exactly once and never before/during run; run exactly once unless cleared/stopped first (a lost task deadlocks the owner's wait); nothing runs after stop() returned; one worker runs in submission order.",
+            "note": _E1_NOTE + " Non-expiring workers as the property states; ThreadPool runs with new_delete_type_mismatch=0 (PooledThread is deleted through Thread*, out of scope)."},
+    "C08": {"engine": "vsched", "design_ref": "DESIGN.md §4 C08", "technique": "stateless model checking of the implementation: exhaustive preemption-bounded schedule enumeration with deadlock detection around stop()",
+            "text": "Same owner scripts as C07, scheduling points also after every unlock. A deadlock with the owner inside stop() is a violation; after stop(): getThreadCount()==0, no task running, every queued task destroyed, restart works; "
+                    "the worker count never exceeds maxThreadCount.",
+            "note": _E1_NOTE},
+    "C15": {"engine": "vsched", "design_ref": "DESIGN.md §2.5, §4 C15", "technique": "stateless model checking of the implementation under ThreadSanitizer: happens-before race detection on every enumerated schedule",
+            "text": "The Resource, ThreadPool (incl. worker expiry, update(), getters) and ConcurrentSubjectRouter programs are built with -fsanitize=thread; the scheduler itself is uninstrumented and hands off through raw futexes, so it adds no happens-before edges; "
+                    "modelled mutexes are announced with __tsan_acquire/__tsan_release. Every schedule up to the preemption bound is executed and any ThreadSanitizer report is a violation.",
+            "note": "Trusted: ThreadSanitizer's vector-clock detector (bounded access history per location) and the announcement of modelled mutexes; harness bookkeeping lives in uninstrumented code. Bounds as listed in the evidence."},
+    "C20": {"engine": "vsched", "design_ref": "DESIGN.md §4 C20", "technique": "stateless model checking of the implementation: complete schedule enumeration of starter vs started thread, liveness-canary oracle, plain and AddressSanitizer",
+            "text": "For every callable kind (function pointer with 0/2 lvalue arguments, small/large functor, lambda, Runnable, constructor form) ALL schedules of the starter and the new thread are executed; the starter overwrites its dead stack after start() returns. "
+                    "The invoked object must be alive (canary + registry, and ASan stack-use-after-return), invoked exactly once, isFinished() true only after the callable returned, join() after that.",
             "note": _E1_NOTE},
     "C12": {"engine": "vsched", "design_ref": "DESIGN.md §4 C12", "technique": "stateless model checking of the implementation: exhaustive preemption-bounded schedule enumeration, no-park and rendezvous oracles",
             "text": "Reader-only programs (2-6 threads), mixed programs and rendezvous programs (k readers queue behind a writer and must meet at a barrier inside the read section). A read request whose call overlaps no write request must never park; "
